@@ -56,10 +56,31 @@ def attempt(fn):
         return {"raise": True, "v": 0.0, "exc": type(ex).__name__}
 
 
-def record(tw, rng, n_membranes, stats):
+def build_membrane(rng, allexp, via_csv, scratch):
+    """the membrane either from the experiment objects directly or through IdealExperiments.from_csv (public loader)"""
+    if not via_csv:
+        return pv.Membrane(name="m", ideal_experiments=pv.IdealExperiments(experiments=allexp))
+    import os
+    import tempfile
+    fd, path = tempfile.mkstemp(suffix=".csv", dir=scratch)
+    with os.fdopen(fd, "w") as f:
+        f.write("name,temperature,component,activation_energy,permeance,units,comment\n")
+        attr_of = {id(getattr(pv.Components, a)): a for a in dir(pv.Components) if isinstance(getattr(pv.Components, a), pv.Component)}
+        for e in allexp:
+            ea = "" if e.activation_energy is None else repr(float(e.activation_energy))
+            f.write("%s,%r,%s,%s,%r,%s,%s\n" % (e.name, float(e.temperature), attr_of[id(e.component)], ea, float(e.permeance.value),
+                                               e.permeance.units, "verif"))
+    try:
+        return pv.Membrane(name="m", ideal_experiments=pv.IdealExperiments.from_csv(path))
+    finally:
+        os.remove(path)
+
+
+def record(tw, rng, n_membranes, stats, scratch=None):
     comps = gen.builtin_components()
     for j in range(n_membranes):
-        c1, c2 = rng.sample(comps, 2) if rng.random() < 0.6 else (
+        builtin = rng.random() < 0.6
+        c1, c2 = rng.sample(comps, 2) if builtin else (
             gen.synthetic_component(rng, "A"), gen.synthetic_component(rng, "B"))
         online = rng.random() < 0.4
         smode = rng.choice(["all", "none", "mixed"])
@@ -69,11 +90,12 @@ def record(tw, rng, n_membranes, stats):
         e2, ea2 = make_experiments(rng, c2, n2, online, rng.choice(["all", "none", "mixed"]), mixed_units)
         allexp = e1 + e2
         rng.shuffle(allexp)                       # interleave the two components in file order
-        mem = pv.Membrane(name="m", ideal_experiments=pv.IdealExperiments(experiments=allexp))
+        via_csv = builtin and scratch is not None and rng.random() < 0.4      # the CSV names components, so built-in ones only
+        mem = build_membrane(rng, allexp, via_csv, scratch)
         ex1 = [exp_desc(e, c1) for e in allexp if e.component is c1]
         ex2 = [exp_desc(e, c2) for e in allexp if e.component is c2]
         tr = tw.new()
-        tr.append({"ev": "Mem", "online": online, "mixed_units": mixed_units, "ea1": F(ea1), "ea2": F(ea2), "M1": F(c1.molecular_weight),
+        tr.append({"ev": "Mem", "online": online, "mixed_units": mixed_units, "via_csv": via_csv, "ea1": F(ea1), "ea2": F(ea2), "M1": F(c1.molecular_weight),
                    "M2": F(c2.molecular_weight), "exps1": ex1, "exps2": ex2})
         ea_code = [attempt(lambda: mem.calculate_activation_energy(c1)), attempt(lambda: mem.calculate_activation_energy(c2))]
         for q in range(rng.randrange(3, 8)):
